@@ -75,7 +75,10 @@ func (v *verifCapture) UnmarshalBinary(data []byte) error {
 }
 
 type c04Step struct {
-	Op      string     `json:"op"` // "send" | "chunk" | "raw"
+	// "send" | "chunk" | "raw" | "neg" (wait until the peer has seen the client's OWN request of type Typ — version
+	// negotiation — and remember its id under Caller, so that frames can answer it with reply_to) | "ready" (wait until
+	// the client's ready gate is closed: negotiation is over)
+	Op      string     `json:"op"`
 	Caller  int        `json:"caller"`
 	Typ     int        `json:"typ"`
 	Frames  []c04Frame `json:"frames"`
@@ -88,7 +91,8 @@ type c04Step struct {
 	SegPauseMS []int `json:"segpause_ms"`
 	Raw     string     `json:"raw"` // hex, written as is, not waited for
 	// op = "send": how the caller awaits its reply: "" = c.send + resp.data(); "unmarshal" = c.send +
-	// resp.UnmarshalTo; "message" = c.SendMessage; "for" = c.SendFor expecting a reply of type InTyp
+	// resp.UnmarshalTo; "message" = c.SendMessage; "for" = c.SendFor expecting a reply of type InTyp;
+	// "shutdown" = c.Shutdown (sends CloseConnection, judges the reply's status, closes the client if it is a success)
 	Via   string `json:"via"`
 	InTyp int    `json:"in_typ"`
 }
@@ -104,6 +108,13 @@ type c04Scenario struct {
 	FirstBeh *c04Frame `json:"first_beh"` // what the handler does if it is offered the first message
 	// TimeoutMS > 0: the client is built WithTimeout (a read deadline armed at every header read, covering the message)
 	TimeoutMS int `json:"timeout_ms"`
+	// Version: 0/1 = the client is built WithVersion(1.0.1) (ready as soon as the first message is accepted);
+	// 2 = WithVersion(1.1): the client negotiates (GetSupportedVersion, SetProtocolVersion) before it is ready —
+	// the script answers those requests itself ("neg" steps + frames with reply_to)
+	Version int `json:"version"`
+	// Waits: the scenario is expected to end in a wait (a refused / accepted close parks the read loop until the client is
+	// closed): like the timed scenarios it does not count towards the "too many stalls" cut-off
+	Waits bool `json:"waits"`
 }
 
 type c04HandlerObs struct {
@@ -136,6 +147,7 @@ type c04Caller struct {
 	Via        string    `json:"via"`
 	// TypOnly: only the reply's type is visible through this API (hdr = 0, type, 0, 0)
 	TypOnly bool `json:"typ_only"`
+	ErrText string `json:"err_text"` // for diagnosis only, never compared
 }
 
 // verifOut / verifIn: the Outgoing / Incoming values a SendFor caller passes.
@@ -161,6 +173,13 @@ func (v *verifIn) Type() MessageType { return v.typ }
 func awaitVia(ctx context.Context, c *Client, typ int, via string, inTyp int) c04Caller {
 	r := c04Caller{Returned: true, Via: via}
 	switch via {
+	case "shutdown":
+		err := c.Shutdown(ctx)
+		r.Err = errClass(err)
+		r.TypOnly = true
+		if err != nil {
+			r.ErrText = err.Error()
+		}
 	case "message":
 		rt, data, err := c.SendMessage(ctx, MessageType(typ), nil)
 		r.Err = errClass(err)
@@ -513,7 +532,11 @@ func runC04(sc c04Scenario) c04Result {
 		}
 	}
 
-	opts := []ClientOpt{WithVersion(Version1_0_1), WithLogger(obs)}
+	ver := Version1_0_1
+	if sc.Version == 2 {
+		ver = Version1_1
+	}
+	opts := []ClientOpt{WithVersion(ver), WithLogger(obs)}
 	if sc.TimeoutMS > 0 {
 		opts = append(opts, WithTimeout(time.Duration(sc.TimeoutMS)*time.Millisecond))
 	}
@@ -646,6 +669,41 @@ stepLoop:
 					res.Stalled = fmt.Sprintf("step%d:request-not-seen", si)
 					break stepLoop
 				}
+			}
+		case "neg":
+			// the client's own request (version negotiation): nobody in the harness awaits it; the peer notes its id
+			cr := &c04Caller{Caller: st.Caller, ReqID: -1}
+			callers[st.Caller] = cr
+			tm := time.After(step)
+		waitNeg:
+			for {
+				select {
+				case s := <-seen:
+					if s.typ == st.Typ {
+						obs.mu.Lock()
+						cr.ReqID = int64(s.id)
+						obs.mu.Unlock()
+						break waitNeg
+					}
+				case connectErr = <-connErr:
+					connectReturned = true
+					res.Stalled = fmt.Sprintf("step%d:connect-returned", si)
+					break stepLoop
+				case <-tm:
+					res.Stalled = fmt.Sprintf("step%d:neg-request-not-seen", si)
+					break stepLoop
+				}
+			}
+		case "ready":
+			select {
+			case <-c.ready:
+			case connectErr = <-connErr:
+				connectReturned = true
+				res.Stalled = fmt.Sprintf("step%d:connect-returned", si)
+				break stepLoop
+			case <-time.After(step):
+				res.Stalled = fmt.Sprintf("step%d:neg-not-ready", si)
+				break stepLoop
 			}
 		case "chunk":
 			var data []byte
@@ -831,7 +889,7 @@ func TestVerifC04(t *testing.T) {
 		t0 := time.Now()
 		r := runC04(sc)
 		r.MS = time.Since(t0).Milliseconds()
-		if r.Stalled != "" {
+		if r.Stalled != "" && sc.TimeoutMS == 0 && !sc.Waits {
 			stalls++
 		}
 		b, _ := json.Marshal(r)
